@@ -116,6 +116,29 @@ def gen_T14():
                  'self.everywhere.remove(command)', 'self.d[command].remove(plugin)', 'self.d[command].add(plugin)'):
         need(frag in dc, 'DisabledCommands: shape changed (missing %r)' % frag)
     need('= None' not in dc.replace('plugin=None', ''), 'DisabledCommands: the d[command] = None representation is back')
+    # the 'ignored' tag (Utilities.ignore): noReply on a not-yet-evaluated proxy pops the bracket and clears the tag
+    # BEFORE it resumes evalArgs; reply on such a proxy drops the reply when the tag is set, and clears it
+    cb_t = tree('src/callbacks.py')
+    nr = find_def(cb_t, 'noReply', 'NestedCommandsIrcProxy')
+    top_if = [n for n in nr.body if isinstance(n, ast.If) and ast.unparse(n.test) == 'self.finalEvaled']
+    need(len(top_if) == 1 and nr.body[-1] is top_if[0], 'noReply: expected a final `if self.finalEvaled:` ... else')
+    els = [ast.unparse(x) for x in top_if[0].orelse]
+    need(els == ['self.args.pop(self.counter)', "msg.tag('ignored', False)", 'self.evalArgs()'],
+         'noReply (not yet evaluated): expected pop, msg.tag(\'ignored\', False), evalArgs in this order, got %r' % els)
+    fin = ast.unparse(top_if[0].body[0]) if top_if[0].body else ''
+    need("msg.tag('ignored', True)" in fin and 'self.irc.noReply(msg=msg)' in fin, 'noReply (evaluated): shape changed')
+    rp = find_def(cb_t, 'reply', 'NestedCommandsIrcProxy')
+    ign_ifs = [n for n in ast.walk(rp) if isinstance(n, ast.If) and ast.unparse(n.test) == 'msg.ignored']
+    need(len(ign_ifs) == 1, 'reply: expected exactly one `if msg.ignored:`')
+    need([ast.unparse(x) for x in ign_ifs[0].body] == ['self.args.pop(self.counter)', "msg.tag('ignored', False)"]
+         and [ast.unparse(x) for x in ign_ifs[0].orelse] == ['self.args[self.counter] = s'],
+         'reply: the msg.ignored branch changed')
+    outer = [n for n in ast.walk(rp) if isinstance(n, ast.If) and ast.unparse(n.test) == 'self.finalEvaled']
+    need(len(outer) == 1 and len(outer[0].orelse) == 2 and outer[0].orelse[0] is ign_ifs[0]
+         and ast.unparse(outer[0].orelse[1]) == 'self.evalArgs()', 'reply (not yet evaluated): expected the msg.ignored test, then evalArgs')
+    ut = tree('plugins/Utilities/plugin.py')
+    ig = find_def(ut, 'ignore', 'Utilities')
+    need([ast.unparse(x) for x in ig.body[1:]] == ["msg.tag('ignored')", 'irc.noReply()'], 'Utilities.ignore: shape changed')
     out = 'Require Import Base.Wire.\n'
     out += 'Definition CANON_SPECIAL : list N := %s.\n' % cstr(c['special'])
     out += 'Definition ERROR_PREFIX : list N := %s.\n' % cstr(c['error_prefix'])
